@@ -39,7 +39,8 @@ RULE = ("fn: generated source for signatures of 0-5 parameters (defaults on a su
         "statements, return annotations, declared vs scraped labels (right and wrong counts, duplicates), "
         "validation on/off, three ways of wrapping; every case = one construction split + 1-3 call splits "
         "(positional prefix + keywords in any order; too many positionals, clashes, unknown keys, values "
-        "violating hints, repeated calls); transformers of size 0-6; dataclass layouts (required/default/"
+        "violating hints, repeated calls); transformers of size 0-6 plus 11, 12 and one size in 20..25 "
+        "(two-digit channel indices, distinct value per position); dataclass layouts (required/default/"
         "factory, plain or postponed annotations). Non-trivial = at least one step returns a value and the "
         "node has >=1 input; distinct = distinct case JSON")
 TRUSTED = ["harness renderer: writes the python source of the described function/dataclass; the fragments it "
@@ -1413,6 +1414,25 @@ def generate(ctx):
                  "ops": [[rows[:npos], [[rn[i], rows[i]] for i in range(npos, n)]], [[], []]]})
         add({"kind": "fromlist", "n": n, "via": "function", "ops": [[[], []], [[["l", vs]], []]]})
         add({"kind": "fromlist", "n": n, "via": "class", "ops": [[[["l", vs]], []], [[], []]]})
+    # large transformer sizes (two-digit channel indices: item_10 sorts before item_2), with a
+    # distinguishable value per position; all-positional, and half positional + keywords at call time
+    for n in (11, 12, rng.randint(20, 25)):
+        vs = [["i", 100 + i] for i in range(n)]
+        half = n // 2
+        for kind, names in (("tolist", [f"item_{i}" for i in range(n)]),
+                            ("todict", [f"p{i}" for i in range(n)])):
+            extra = {"n": n} if kind == "tolist" else {"spec": ["names", names]}
+            kws = [[names[i], vs[i]] for i in range(half, n)]
+            add({"kind": kind, **extra, "via": "function", "ops": [[vs, []], [[], []]]})
+            add({"kind": kind, **extra, "via": "class", "ops": [[vs[:half], []], [[], kws]]})
+            add({"kind": kind, **extra, "via": "function", "ops": [[[], list(reversed(kws))], [vs[:half], []], [[], []]]})
+        rows = [["m", "dict", [["a", ["i", 100 + i]], ["b", ["s", "u" if i % 2 else "v"]]]] for i in range(n)]
+        rn = [f"row_{i}" for i in range(n)]
+        add({"kind": "toframe", "n": n, "via": "function", "ops": [[rows, []], [[], []]]})
+        add({"kind": "toframe", "n": n, "via": "class",
+             "ops": [[rows[:half], []], [[], [[rn[i], rows[i]] for i in range(half, n)]]]})
+        add({"kind": "fromlist", "n": n, "via": "function", "ops": [[[["l", vs]], []], [[], []]]})
+        add({"kind": "fromlist", "n": n, "via": "class", "ops": [[[], []], [[], [["list", ["l", vs]]]]]})
     if not ctx.quick:
         for c in exhaustive_fn_cases():
             add(c)
